@@ -371,7 +371,7 @@ def e2e_scenarios(seed, tier):
     rnd = random.Random(seed)
     out = []
     ms = [b"", b"m", b"abc", bytes(rnd.randrange(256) for _ in range(300))]
-    es = [b"", b"e"]
+    es = [b"", b"e", b"\x80\x01"]  # empty, text, a binary epoch counter (not UTF-8)
     auxsets = [[None, None, None, None, None], ["", "00ff", None, "01", ""], ["aa" * 200, None, "", "bb", None]]
     sels = {1: [[0], [1, 1], [2, 0, 1]], 2: [[0, 1], [1, 0, 1], [0, 0], [3, 3, 3, 1], [4]], 3: [[0, 1, 2], [0, 1, 0, 2, 3], [2, 2, 1, 1], [0, 1], [4, 3, 2, 1, 0]]}
     for t in (1, 2, 3):
